@@ -1,7 +1,6 @@
 package c16
 
 import (
-	"bytes"
 	"context"
 	"encoding/hex"
 	"encoding/json"
@@ -86,7 +85,7 @@ func (t *fakeTransport) RoundTrip(req *http.Request) (*http.Response, error) {
 	h := http.Header{}
 	h.Set(restli.ProtocolVersionHeader, restli.ProtocolVersion)
 	h.Set("Content-Type", "application/json")
-	return &http.Response{StatusCode: 200, Status: "200 OK", Header: h, Body: io.NopCloser(bytes.NewReader(t.reply)),
+	return &http.Response{StatusCode: 200, Status: "200 OK", Header: h, Body: hx.ShortReads(t.reply),
 		Request: req, Proto: "HTTP/1.1", ProtoMajor: 1, ProtoMinor: 1}, nil
 }
 
